@@ -19,6 +19,9 @@
 (*   exo    0 none | 1:  + G  in equation 1, G a literal list of exactly MaxTime+1       *)
 (*                 | 2:  + G, G a list expression of MaxTime+3 values (gets chopped)     *)
 (*                 | 3:  + G, G a list expression that uses math names and builtins       *)
+(*                 | 4:  G = 2*[20.0, ] + N*[25.0, ]   (repeat count first)               *)
+(*                 | 5:  G = (20.0, 21.5, ...)          (a tuple of exactly MaxTime+1)     *)
+(*                 | 6:  G = ([20.0, ] * 2 + [25.0, ] * N)   (parenthesised)               *)
 (*   cst    constant of equation 1:  0: 2.0 | 1: a closed expression over math names /     *)
 (*          builtins chosen by fn (sqrt(4.0), tanh(0.5) + 1.5, e, max(2.0, 1.0), ...)     *)
 (*          | 2: c0 with the line c0 = 2.0 | 3: 1000000.0 | 4: 2000.0 (large values)      *)
@@ -127,7 +130,7 @@ MkBlock(o) ==
                        [] o.lag = 5 -> << l2, lb, l1 >>
                        [] o.lag = 6 -> << l2, l1, lb >>)
                  \o Opt(o.userT = "endo", << [name |-> "t_minus_1", of |-> "t"] >>),
-      exos   |-> Opt(o.exo > 0, << [name |-> "G", len |-> IF o.exo = 1 THEN o.maxTime + 1 ELSE o.maxTime + 3,
+      exos   |-> Opt(o.exo > 0, << [name |-> "G", len |-> IF o.exo \in {1, 5} THEN o.maxTime + 1 ELSE o.maxTime + 3,
                                      reads |-> IF o.exo = 3 THEN ExoExprReads ELSE << >>] >>)
                  \o Opt(o.userT = "exo", << [name |-> "t", len |-> o.maxTime + 1, reads |-> << >>] >>),
       ics    |-> Opt(o.ic, << Last(o) >>),
@@ -266,6 +269,10 @@ ScaleProfiles ==
     { [lag |-> l, ic |-> FALSE, exo |-> x, cst |-> s, userT |-> u, useT |-> w, tol |-> tl, nm |-> 0] :
       l \in {0, 1}, x \in {0, 1}, s \in {3, 4}, u \in {"none", "endo"}, w \in BOOLEAN, tl \in {0, 4, 6} }
 ScaleMats == { << << 0, 1 >>, << 2, 0 >> >>, << << 0, 1, 1 >>, << 1, 0, 1 >>, << 1, 1, 0 >> >> }
+(* spellings of the exogenous path that do not start with a bracket *)
+ExoProfiles ==
+    { [lag |-> l, ic |-> TRUE, exo |-> x, cst |-> s, userT |-> u, useT |-> TRUE, tol |-> 0, nm |-> 0, red |-> r] :
+      l \in {0, 1}, x \in 4..6, s \in {0, 2}, u \in {"none", "endo"}, r \in BOOLEAN }
 Base2 == { << << 0, 1 >>, << 2, 0 >> >> }
 OwnNameMats == Mats1 \cup Base2 \cup { << << 0, 1, 1 >>, << 1, 0, 1 >>, << 1, 1, 0 >> >> }
 
@@ -292,6 +299,7 @@ BlocksQuick(mt) ==
     \cup { MkBlock(o) : o \in ProfilesOf(KProfiles, Mats1 \cup Base2, {mt}) }
     \cup { MkBlock(o) : o \in ProfilesOf(AxisProfiles, Mats0, {mt}) }
     \cup { MkBlock(o) : o \in ProfilesOf(ScaleProfiles, ScaleMats, {mt}) }
+    \cup { MkBlock(o) : o \in ProfilesOf(ExoProfiles, Mats1 \cup Base2, {mt}) }
     \cup { MkBlock(o) : o \in ProfilesOf(CommentProfiles, Mats1 \cup Base2, {mt}) }
     \cup { MkBlock(o) : o \in ProfilesOf(PlaceholderProfiles, Mats1 \cup Base2, {mt}) }
 
@@ -315,7 +323,8 @@ BlocksThorough(mt) ==
     \cup { MkBlock(o) : o \in ProfilesOf(ParamProfiles, Mats1 \cup ParamMats \cup Mats3Few, {mt, 6}) }
     \cup { MkBlock(o) : o \in ProfilesOf(KProfiles, Mats1 \cup BaseMats \cup Mats3Few, {mt, 6}) }
     \cup { MkBlock(o) : o \in ProfilesOf(AxisProfiles, Mats0, {mt, 1, 6}) }
-    \cup { MkBlock(o) : o \in ProfilesOf(ScaleProfiles, Mats1 \cup Mats2 \cup Mats3Few, {mt, 6}) }
+    \cup { MkBlock(o) : o \in ProfilesOf(ScaleProfiles, Mats1 \cup BaseMats \cup Mats3Few, {mt, 6}) }
+    \cup { MkBlock(o) : o \in ProfilesOf(ExoProfiles, Mats1 \cup BaseMats \cup Mats3Few, {mt, 6}) }
     \cup { MkBlock(o) : o \in ProfilesOf(CommentProfiles, Mats1 \cup BaseMats, {mt, 6}) }
     \cup { MkBlock(o) : o \in ProfilesOf(PlaceholderProfiles, Mats1 \cup BaseMats, {mt}) }
 
